@@ -1,5 +1,6 @@
 import Marwood.Lemmas.TotalOps
 import Marwood.Lemmas.TotalListP
+import Marwood.Lemmas.TotalLength
 import Marwood.Lemmas.TotalPrelude
 import Marwood.Lemmas.StackWFNoPanic
 import Marwood.Proofs.C07
@@ -958,16 +959,40 @@ theorem isList_pinned_diverges (fuel : Nat) : isList fuel circ [.ptr 1] = .diver
   have hg : circ.get (.ptr 1) = .ok (.pair 0 1) := rfl
   simp [isList, hg, h]
 
-/-- known finding `C06-circular-length`: the prelude's `length` recurses without bound on a
-    circular list — no fuel suffices -/
-theorem length_circular_diverges (fuel : Nat) : length fuel circ (.ptr 1) = .diverge := by
+/-- `C06-circular-length` (fixed): the PINNED definition of the prelude's `length`
+    (`Store.Pinned.length`, the text before the repair) recurses without bound on a circular list — no
+    fuel suffices -/
+theorem length_circular_diverges (fuel : Nat) : Pinned.length fuel circ (.ptr 1) = .diverge := by
   induction fuel with
   | zero => rfl
   | succ f ih =>
-    unfold length
+    unfold Pinned.length
     have h1 : nullP circ (.ptr 1) = .ok false := rfl
     have h2 : cdrV circ (.ptr 1) = .ok (.ptr 1) := rfl
     simp only [h1, h2, bind_ok, Bool.false_eq_true, if_false, ih, bind_diverge]
+
+/-- … where the repaired `length` (two cursors, `Store.length`) answers the `expected pair` error on
+    the one-element and on the two-element cycle: one call of `length`, one resp. two calls of `count` -/
+theorem length_circular_self : length 2 circ (.ptr 1) = .err .pair := rfl
+theorem length_circular_two : length 3 circ (.ptr 3) = .err .pair := rfl
+
+/-- **T06.3, `length` after the repair: termination on EVERY store.** For every well-formed store — of
+    any size, circular or not — and every valid argument, `|cells| + 2` units of fuel (one for the call
+    of `length`, one per call of its local `count`, which advances two pairs) are enough: the answer is
+    an exact integer when the cdr chain of the argument reaches `()` (`ProperList`) and the
+    `expected pair` error when it does not — an improper list, a non-list or a circular list; never
+    `diverge`, never `panic`. Floyd / pigeonhole: `Lemmas/TotalLength.lean` on top of the chain lemmas of
+    `Lemmas/TotalListP.lean`. -/
+theorem length_total (hs : s.WF) {x : VCell} (hx : VCell.Valid s x) {fuel : Nat}
+    (hf : s.cells.length + 2 ≤ fuel) :
+    (ProperList s x ∧ ∃ n : Nat, length fuel s x = .ok (.num n)) ∨
+    (¬ ProperList s x ∧ length fuel s x = .err .pair) :=
+  Marwood.Store.length_total hs hx hf
+
+/-- in particular: never out of fuel -/
+theorem length_never_diverges (hs : s.WF) {x : VCell} (hx : VCell.Valid s x) {fuel : Nat}
+    (hf : s.cells.length + 2 ≤ fuel) : length fuel s x ≠ .diverge := by
+  rcases Marwood.Store.length_total hs hx hf with ⟨_, n, h⟩ | ⟨_, h⟩ <;> rw [h] <;> simp
 
 /-- known finding `C06-circular-equal`: `equal?` on two circular lists of the same shape never
     returns — no fuel suffices -/
@@ -1133,5 +1158,32 @@ example : Outcome.NoPanic (makeVector Store.empty [.num 1000000]) :=
   makeVector_noPanic ⟨by intro c hc; simp [Store.empty] at hc, by intro xs hx; simp [Store.empty] at hx⟩
     (by intro v hv; simp at hv; subst hv; trivial)
     (by intro n k hn hg; simp at hn; subst hn; simp [Store.get] at hg; omega)
+
+/-! ### T06.6 on the concrete machine
+
+`Lemmas/ConcreteLaws*.lean` (imported through `Proofs/C07.lean`): over the concrete heap `CodeLaws` is the
+theorem `concreteLaws ext ecl` (hypotheses: `CInv` of the heap — every lambda cell passes the bytecode
+verifier — and `ExtCodeLaws ext`), and in a `CalleeOk` state the guarded machine's `step` is the concrete
+machine's (`step_gops`). `PanicLaws` stays a hypothesis: its heap-object fields (`vararg_info`, the
+slot-index `expect`s of CLOSURE's / ENTER's environment construction, the unmodelled builtins) are not
+consequences of `CInv`; `isLambda_code` is (`concrete_isLambda_code`). -/
+
+theorem concrete_isLambda_code (ext : Vm.Concrete.ExtOps) (ecl : Vm.Concrete.ExtCodeLaws ext)
+    {h : Vm.Concrete.CHeap} {l : Nat} {bc : List Vm.VCell}
+    (hc : (Vm.Concrete.concreteLaws ext ecl).code h l = some bc) :
+    (Vm.Concrete.gops ext).isLambda h l = true := by
+  obtain ⟨lam, h1, _⟩ := Vm.Concrete.codeC_some hc
+  show (Vm.Concrete.lambdaAt h l).isSome = true
+  rw [Vm.Concrete.lambdaAt_iff.mpr h1]; rfl
+
+/-- one instruction **of the concrete machine** from a WF-stack, `CalleeOk` state panics at most at the two
+    residual sites -/
+theorem step_panic_sites_concrete (ext : Vm.Concrete.ExtOps) (ecl : Vm.Concrete.ExtCodeLaws ext)
+    (pl : Vm.PanicLaws (Vm.Concrete.concreteLaws ext ecl)) {s : Vm.St Vm.Concrete.CHeap} {K : List Vm.FDesc}
+    (hok : Vm.Concrete.CalleeOk s) (hw : Vm.WFS (Vm.Concrete.concreteLaws ext ecl) s K) (m : String)
+    (h : Vm.step (Vm.Concrete.concreteOps ext) s = .panic m) :
+    m = "restore_continuation: split_at_mut out of range" ∨ m = "apply: list longer than fuel (cyclic list)" := by
+  rw [← Vm.Concrete.step_gops ext hok] at h
+  exact Vm.step_pin pl hw m h
 
 end Marwood.Proofs.C06
